@@ -3,6 +3,7 @@ import FastorModel.Props.C02
 import Mathlib.Algebra.BigOperators.Group.Finset.Basic
 import Mathlib.Algebra.BigOperators.Group.List.Basic
 import Mathlib.Tactic.Ring
+import Mathlib.Order.MinMax
 import Mathlib.Algebra.BigOperators.Group.Finset.Piecewise
 import Mathlib.Algebra.BigOperators.Group.Finset.Sigma
 
@@ -456,5 +457,70 @@ theorem minmax_correct {better : α → α → Bool} (hb : StrictTotal better) (
     · rw [h1] at t; exact absurd t Bool.false_ne_true
   · exact ⟨i, hi, h⟩
 end minmax
+
+/-! ### helper lemmas of Props/C16.lean -/
+variable {A : Type} [AddCommMonoid A] in
+theorem foldl_add_eq_sum (term : Nat → A) (n : Nat) :
+    (List.range n).foldl (fun acc i => acc + term i) 0 = ∑ i ∈ Finset.range n, term i := by
+  induction n with
+  | zero => simp
+  | succ n ih => rw [List.range_succ, List.foldl_append, ih, Finset.sum_range_succ]; simp
+
+variable {M : Type} [CommMonoid M] in
+theorem foldl_mul_eq_prod (term : Nat → M) (n : Nat) :
+    (List.range n).foldl (fun acc i => acc * term i) 1 = ∏ i ∈ Finset.range n, term i := by
+  rw [foldl_mul_range]; simp
+
+/-- inner loop of `issymmetric`: state (issym, broken) -/
+theorem isSym_inner (viol : Nat → Bool) (s : Bool) (m : Nat) :
+    (List.range m).foldl (fun (st : Bool × Bool) j => if st.2 then st else if viol j then (false, true) else st) (s, false)
+      = (s && decide (∀ j < m, viol j = false), decide (∃ j < m, viol j = true)) := by
+  induction m with
+  | zero => simp
+  | succ m ih =>
+    rw [List.range_succ, List.foldl_append, ih]
+    simp only [List.foldl_cons, List.foldl_nil]
+    by_cases h : ∃ j < m, viol j = true
+    · obtain ⟨j, hj, hv⟩ := h
+      have h1 : (∃ j < m, viol j = true) := ⟨j, hj, hv⟩
+      have h2 : (∃ j < m + 1, viol j = true) := ⟨j, by omega, hv⟩
+      have h3 : ¬ ∀ j < m, viol j = false := fun hh => by rw [hh j hj] at hv; exact Bool.false_ne_true hv
+      have h4 : ¬ ∀ j < m + 1, viol j = false := fun hh => by rw [hh j (by omega)] at hv; exact Bool.false_ne_true hv
+      simp only [decide_eq_true h1, decide_eq_true h2, decide_eq_false h3, decide_eq_false h4]
+      simp
+    · have h3 : ∀ j < m, viol j = false := by
+        intro j hj
+        cases hv : viol j
+        · rfl
+        · exact absurd ⟨j, hj, hv⟩ h
+      cases hm : viol m
+      · have h2 : ¬ ∃ j < m + 1, viol j = true := by
+          rintro ⟨j, hj, hv⟩
+          by_cases hjm : j = m
+          · subst hjm; rw [hm] at hv; exact Bool.false_ne_true hv
+          · exact h ⟨j, by omega, hv⟩
+        have h4 : ∀ j < m + 1, viol j = false := by
+          intro j hj
+          by_cases hjm : j = m
+          · subst hjm; exact hm
+          · exact h3 j (by omega)
+        simp only [decide_eq_false h, decide_eq_false h2, decide_eq_true h3, decide_eq_true h4]
+        simp
+      · have h2 : ∃ j < m + 1, viol j = true := ⟨m, by omega, hm⟩
+        have h4 : ¬ ∀ j < m + 1, viol j = false := fun hh => by rw [hh m (by omega)] at hm; exact Bool.false_ne_true hm
+        simp only [decide_eq_false h, decide_eq_true h2, decide_eq_true h3, decide_eq_false h4]
+        simp
+
+section ite
+variable {α : Type} [LinearOrder α]
+theorem ite_lt_min (a q : α) : (if decide (a < q) = true then a else q) = min a q := by
+  by_cases h : a < q
+  · simp [h, min_eq_left (le_of_lt h)]
+  · simp [h, min_eq_right (not_lt.1 h)]
+theorem ite_gt_max (a q : α) : (if decide (q < a) = true then a else q) = max a q := by
+  by_cases h : q < a
+  · simp [h, max_eq_left (le_of_lt h)]
+  · simp [h, max_eq_right (not_lt.1 h)]
+end ite
 
 end Fastor.Reduce
